@@ -24,6 +24,7 @@ use std::collections::HashMap;
 pub struct Ctx {
     pub repo: String,
     pub root: String,
+    pub gen_dir: String,
     pub files: HashMap<String, (String, syn::File)>,
     pub lift: lift::LiftRegistry,
 }
@@ -33,7 +34,11 @@ impl Ctx {
         if self.files.contains_key(rel) {
             return Ok(());
         }
-        let p = format!("{}/{}", self.repo, rel);
+        // `@gen/<file>`: a file generated earlier in this run (e.g. a macro expansion) next to the unit's output
+        let p = match rel.strip_prefix("@gen/") {
+            Some(r) => format!("{}/{}", self.gen_dir, r),
+            None => format!("{}/{}", self.repo, rel),
+        };
         let src = std::fs::read_to_string(&p).map_err(|e| format!("cannot read {p}: {e}"))?;
         let ast = syn::parse_file(&src).map_err(|e| format!("cannot parse {p}: {e}"))?;
         self.files.insert(rel.to_string(), (src, ast));
@@ -62,7 +67,8 @@ fn main() {
     let out = arg(&args, "--out").expect("--out");
     let report = arg(&args, "--report").expect("--report");
     let root = arg(&args, "--root").unwrap_or_else(|| ".".into());
-    let mut ctx = Ctx { repo, root, files: HashMap::new(), lift: Default::default() };
+    let gen_dir = std::path::Path::new(&out).parent().map(|p| p.to_string_lossy().to_string()).unwrap_or_else(|| ".".into());
+    let mut ctx = Ctx { repo, root, gen_dir, files: HashMap::new(), lift: Default::default() };
     let text = std::fs::read_to_string(&template).expect("read template");
     let res = template::process(&mut ctx, &text);
     let (ok, gen, rep) = match res {
